@@ -20,6 +20,7 @@ import (
 
 // ---- a case = configuration + faces + commands; serialisable as text (VERIF_OPS / corpus) -------------------------
 type opCmd struct {
+	isData bool // send a Data packet with this name instead of an Interest (Run must drop it)
 	inFace uint64
 	name   enc.Name // without the ParametersSha256Digest component MakeInterest appends when app != nil
 	app    []byte   // ApplicationParameters (nil = none)
@@ -47,7 +48,11 @@ func (c *caseSpec) opsText() []string {
 		if lab == "" {
 			lab = "-"
 		}
-		out = append(out, fmt.Sprintf("cmd %d %s %s %s", m.inFace, hx(m.name.Bytes()), app, lab))
+		kw := "cmd"
+		if m.isData {
+			kw = "dat"
+		}
+		out = append(out, fmt.Sprintf("%s %d %s %s %s", kw, m.inFace, hx(m.name.Bytes()), app, lab))
 	}
 	return out
 }
@@ -71,7 +76,7 @@ func parseOps(lines []string) (*caseSpec, error) {
 			ps, _ := strconv.ParseUint(f[5], 10, 64)
 			mtu, _ := strconv.Atoi(f[6])
 			c.faces = append(c.faces, faceSpec{f[1], f[2], defn.Scope(sc), defn.LinkType(lt), face.Persistency(ps), mtu, f[7] == "1"})
-		case "cmd":
+		case "cmd", "dat":
 			if len(f) < 4 {
 				return nil, fmt.Errorf("bad cmd line %q", l)
 			}
@@ -95,7 +100,7 @@ func parseOps(lines []string) (*caseSpec, error) {
 			if len(f) > 4 {
 				lab = f[4]
 			}
-			c.cmds = append(c.cmds, opCmd{in, n, app, lab})
+			c.cmds = append(c.cmds, opCmd{isData: f[0] == "dat", inFace: in, name: n, app: app, label: lab})
 		default:
 			return nil, fmt.Errorf("bad ops line %q", l)
 		}
@@ -538,6 +543,18 @@ func runCase(id int, cs *caseSpec, emit func(string)) error {
 	emit(fmt.Sprintf("CASE %d %d %d", id, b2i(cs.localhop), w.internal.FaceID()))
 	emit(fmt.Sprintf("INIT %s %s %s %d %s", ribTable(), fibTable(), stratTable(), table.CsCapacity(), facesTable(in)))
 	for _, m := range cs.cmds {
+		if m.isData {
+			// not an Interest: the management loop must drop it. For the model this is a packet without a command name.
+			emit("CMD " + strconv.FormatUint(m.inFace, 10) + " - none 0 none")
+			got, st := w.dataPacket(m.name, m.inFace)
+			emit(obsLine(in, got, st, w.crashed))
+			emit(fmt.Sprintf("TAB %s %s %s %d %s", ribTable(), fibTable(), stratTable(), table.CsCapacity(), facesTable(in)))
+			emit("LIVE -")
+			if st == "panic" || st == "hang" {
+				break
+			}
+			continue
+		}
 		wire, final, err := mkInterest(m.name, m.app)
 		if err != nil {
 			emit("# skipped (cannot encode): " + m.label)
